@@ -199,6 +199,27 @@ Proof.
 Qed.
 Print Assumptions load_history_independent.
 
+(** 8. Decoys.  Only the [effective] symbols count: kernel symbols of that name
+    (positive size, in .text), symbols called name.kd of size 64, the metadata
+    symbols.  Same-named symbols of other sizes or sections (zero-sized labels,
+    a local name.kd of size 0 in front of the real descriptor, ...) may be
+    added, removed or moved freely, before or after the real ones. *)
+Theorem load_ignores_decoys : forall secs l1 l2 name,
+  name <> ""%string ->
+  filter (effective secs name) l1 = filter (effective secs name) l2 ->
+  load (mkView secs (Some l1)) name = load (mkView secs (Some l2)) name.
+Proof. exact load_same_effective. Qed.
+Print Assumptions load_ignores_decoys.
+
+(** 9. Empty name: when the object has exactly one kernel symbol, loading with
+    the empty name is loading that kernel by its name (so every theorem above
+    applies to it through this equation). *)
+Theorem load_empty_name_single_kernel : forall secs syms k,
+  filter (is_kernel_sym secs) syms = [k] ->
+  load (mkView secs (Some syms)) "" = load (mkView secs (Some syms)) (y_name k).
+Proof. exact load_auto_single. Qed.
+Print Assumptions load_empty_name_single_kernel.
+
 (** ------------------------------------------------------------ non-vacuity *)
 Definition demo_hdr : hdr :=
   mkHdr 1 1 1 8 0 3 256 0 0 0 11272256 144 true false false true false false false false false false
@@ -230,6 +251,18 @@ Proof.
   - intros []; eexists; vm_compute; repeat split; reflexivity.
   - vm_compute. repeat split; try reflexivity; discriminate.
 Qed.
+
+(** a zero-sized local label b.kd in front of the real descriptor, a label "b"
+    and the empty name on a one-kernel object change nothing *)
+Example demo_decoys_and_auto :
+  let v := demo_view true in
+  let secs := v_secs v in
+  let syms := match v_syms v with Some l => filter (fun y => negb (has_name "a" y)) l | None => [] end in
+  let decoys := [mkSym "b.kd" 0 0 1 520 0; mkSym "b" 0 0 2 4356 0] in
+  load (mkView secs (Some (decoys ++ syms))) "b" = load v "b" /\
+  load (mkView secs (Some (decoys ++ syms))) "" = load v "b" /\
+  exists o, load v "b" = Loaded o /\ kernarg_size (o_meta o) = 24.
+Proof. vm_compute. repeat split. eexists. split; reflexivity. Qed.
 
 (** without unique names the symbol order does matter (first match wins) *)
 Example order_matters_when_names_collide :
